@@ -1,3 +1,3 @@
 import MpfVerif.DriverLoop
-import MpfVerif.Model.Writer
-def main : IO UInt32 := MpfVerif.runDriver MpfVerif.Writer.driverStep {}
+import MpfVerif.Model.MachineVars
+def main : IO UInt32 := MpfVerif.runDriver MpfVerif.MachineVars.driverStep {}
